@@ -53,6 +53,16 @@ Section Vector.
     unfold prior_value_for, post, checked. destruct (within A p _); [|discriminate].
     intro H. exact H.
   Qed.
+
+  (* repaired code: transparency holds exactly when the rounding does not take the value out of the limits *)
+  Lemma gate_transparent_repaired_partial (p : prior N) (u v : N) :
+    (p_family p <> Uniform \/ within A p (a_round14 A (msg_value_for A S (message_of A S p) u)) = true) ->
+    prior_value_for A S Repaired p false u = Ok v -> prior_value_for A S Repaired p true u = Ok v.
+  Proof.
+    unfold prior_value_for, post, checked. intros G. destruct (within A p (msg_value_for A S (message_of A S p) u)); [|discriminate].
+    destruct (p_family p) eqn:Hf; try (intro H; exact H).
+    destruct G as [G|G]; [congruence|]. unfold uniform_round. simpl. rewrite G. intro H; exact H.
+  Qed.
 End Vector.
 
 (* ---------- exact decimal rounding over Q ---------- *)
@@ -64,7 +74,7 @@ Definition round14_Q (x : Q) : Q := inject_Z (Qround_half_even (x * ten14Q)) / t
 
 Definition QA : Arith Q :=
   mkArith Q Qplus Qminus Qmult Qdiv Qle_bool Qlt_bool 0 1 2
-          (14142135623730951 # 10000000000000000) (1 # 100000000000000) round14_Q.
+          (14142135623730951 # 10000000000000000) (1 # 100000000000000) round14_Q (fun _ => true).
 
 Lemma ten14Q_pos : 0 < ten14Q.
 Proof. reflexivity. Qed.
@@ -179,4 +189,18 @@ Proof.
   unfold uniform_round. cbn [a_round14 QA].
   destruct (ig || within QA p (round14_Q x)); [apply round14_Q_err|].
   assert (E : x - x == 0) by ring. rewrite E. discriminate.
+Qed.
+
+(* for the repaired code the gate is no longer transparent in general: with the limits enforced the unrounded
+   value is kept where the rounding would leave the limits, with the limits ignored the rounded value is returned *)
+Definition gate_transparent_at_post (var : variant) : Prop :=
+  forall (p : prior Q) (x r r' : Q), post QA var p false x = Ok r -> post QA var p true x = Ok r' -> r == r'.
+
+Lemma gate_transparent_repaired_refuted : ~ gate_transparent_at_post Repaired.
+Proof.
+  intro H.
+  pose (p := mkPrior Uniform 0 1 0 (8 # 1000000000000000)).
+  assert (P1 : post QA Repaired p false (6 # 1000000000000000) = Ok (6 # 1000000000000000)) by (vm_compute; reflexivity).
+  assert (P2 : post QA Repaired p true (6 # 1000000000000000) = Ok (round14_Q (6 # 1000000000000000))) by (vm_compute; reflexivity).
+  specialize (H p _ _ _ P1 P2). vm_compute in H. discriminate.
 Qed.
